@@ -1,4 +1,5 @@
 // unit part: src/wcet/{mod,scalar,curve}.rs (C14)
+use std::collections::VecDeque;
 verus! {
 
 // ------------------------------------------------------------------ spec library
@@ -141,8 +142,7 @@ pub struct /*@R19: Curve @*/WcetCurve/*@.*/ {
 //@end
 
 impl JobCostModel for WcetCurve {
-    // non-empty: least_wcet indexes [0] unconditionally (finding KF8)
-    open spec fn wf(&self) -> bool { wcet_wf(self.wcet_of_n_jobs@) && self.wcet_of_n_jobs@.len() >= 1 }
+    open spec fn wf(&self) -> bool { wcet_wf(self.wcet_of_n_jobs@) }
     open spec fn cost(&self, n: int) -> int { cost_curve(self.wcet_of_n_jobs@, n) }
     open spec fn least(&self, n: int) -> int {
         if n > 0 && self.wcet_of_n_jobs.len() > 0 { min_diff(self.wcet_of_n_jobs@, if n < self.wcet_of_n_jobs.len() { n } else { self.wcet_of_n_jobs.len() as int }) } else { 0 }
@@ -183,7 +183,7 @@ impl JobCostModel for WcetCurve {
 
 //@item src/wcet/curve.rs :: impl JobCostModel for Curve / fn least_wcet
     fn least_wcet(&self, n: usize) -> Service {
-        if n > 0 {
+        if n > 0 && !self.wcet_of_n_jobs.is_empty() {
             let mut least = self.wcet_of_n_jobs[0];
             /*@R16: for i in 1..self.wcet_of_n_jobs.len().min(n) @*/let vf_end = vf_usize_min(self.wcet_of_n_jobs.len(), n); for i in 1..vf_end/*@.*/
 //@+
@@ -206,5 +206,267 @@ impl JobCostModel for WcetCurve {
 
 /// usize::min (Ord::min on usize), R12
 pub fn vf_usize_min(a: usize, b: usize) -> (r: usize) ensures r == (if a <= b { a } else { b }) { if a <= b { a } else { b } }
+
+// ------------------------------------------------------------------ extrapolation (C14)
+/// sub-additive extension: candidate k for the cost of n+1 jobs, n = current prefix length
+pub open spec fn ext_cand(w: Seq<Service>, k: int) -> int { cv(w, k) + cv(w, w.len() - k - 1) }
+pub open spec fn ext_next(w: Seq<Service>) -> int { min_range(|k: int| ext_cand(w, k), 0, (w.len() / 2) as int) }
+/// `cur` extends `orig`: the original prefix is unchanged and every later entry is the ext_next of the entries before it
+pub open spec fn extends(orig: Seq<Service>, cur: Seq<Service>) -> bool {
+    &&& orig.len() <= cur.len()
+    &&& cur.subrange(0, orig.len() as int) =~= orig
+    &&& forall |m: int| orig.len() <= m < cur.len() ==> #[trigger] cv(cur, m) == ext_next(cur.subrange(0, m))
+}
+/// magnitude envelope that extrapolation preserves: entry i costs at most i+1 times the single-job cost
+/// (holds for every realisable, i.e. sub-additive, cost curve)
+pub open spec fn lin_bounded(w: Seq<Service>) -> bool { forall |i: int| 0 <= i < w.len() ==> #[trigger] cv(w, i) <= (i + 1) * cv(w, 0) }
+
+impl WcetCurve {
+//@item src/wcet/curve.rs :: impl Curve #2 / fn extrapolate_next
+    fn extrapolate_next(&self) -> /*+*/(r: /*-*/Service/*+*/)
+        requires self.wcet_of_n_jobs@.len() >= 2, lin_bounded(self.wcet_of_n_jobs@),
+                 (self.wcet_of_n_jobs@.len() + 1) * cv(self.wcet_of_n_jobs@, 0) <= u64::MAX,
+        ensures r.v() == ext_next(self.wcet_of_n_jobs@), r.v() <= (self.wcet_of_n_jobs@.len() + 1) * cv(self.wcet_of_n_jobs@, 0)/*-*/ {
+        let n = self.wcet_of_n_jobs.len();
+        /*@R6: assert!( @*/vf_assert(/*@.*/n >= 2);
+//@+
+        proof {
+            let w = self.wcet_of_n_jobs@;
+            // candidate 0 is within the envelope, hence so is the minimum
+            assert(cv(w, 0) <= (0 + 1) * cv(w, 0));
+            assert(cv(w, n - 1) <= (n - 1 + 1) * cv(w, 0));
+            assert((0 + 1) * cv(w, 0) + (n - 1 + 1) * cv(w, 0) == (n + 1) * cv(w, 0)) by { lemma_mul_is_distributive_add_other_way(cv(w, 0), 1, n as int); }
+            lemma_min_range_le(|k: int| ext_cand(w, k), 0, (n / 2) as int, 0);
+        }
+//@-
+        // Upper-bound cost of n jobs as the sum of the bounds on the costs of
+        // n-k jobs and k jobs. Since we don't store n=0, this is offset by one.
+        /*@R4: (0..=(n / 2))
+            .map( @*/vf_min_range_service(0, n / 2, /*@.*/|k/*+*/: usize/*-*/| /*+*/-> (r: Service)
+                requires k <= n / 2, n == self.wcet_of_n_jobs@.len(), n >= 2, lin_bounded(self.wcet_of_n_jobs@), (n + 1) * cv(self.wcet_of_n_jobs@, 0) <= u64::MAX
+                ensures r.v() == ext_cand(self.wcet_of_n_jobs@, k as int)
+            { proof {
+                let w = self.wcet_of_n_jobs@;
+                assert(cv(w, k as int) <= (k + 1) * cv(w, 0));
+                assert(cv(w, n - k - 1) <= (n - k - 1 + 1) * cv(w, 0));
+                assert((k + 1) * cv(w, 0) + (n - k - 1 + 1) * cv(w, 0) == (n + 1) * cv(w, 0)) by { lemma_mul_is_distributive_add_other_way(cv(w, 0), (k + 1) as int, (n - k) as int); }
+              } /*-*/self.wcet_of_n_jobs[k] + self.wcet_of_n_jobs[n - k - 1]/*+*/ }/*-*//*@R4: )
+            .min()
+            .unwrap() @*/, Ghost(|k: int| ext_cand(self.wcet_of_n_jobs@, k)))/*@.*/
+    }
+//@end
+
+//@item src/wcet/curve.rs :: impl Curve #2 / fn extrapolate
+    pub fn extrapolate(&mut self, n: usize)
+//@+
+        requires
+            old(self).wcet_of_n_jobs@.len() >= 1 ==> lin_bounded(old(self).wcet_of_n_jobs@),
+            old(self).wcet_of_n_jobs@.len() >= 1 ==> (n + old(self).wcet_of_n_jobs@.len() + 1) * cv(old(self).wcet_of_n_jobs@, 0) <= u64::MAX,
+        ensures
+            // C14: values inside the original prefix are unchanged, every appended entry is the sub-additive extension
+            extends(old(self).wcet_of_n_jobs@, final(self).wcet_of_n_jobs@),
+            final(self).wcet_of_n_jobs@.len() == (if old(self).wcet_of_n_jobs@.len() >= 3 && n >= 1 && old(self).wcet_of_n_jobs@.len() < n - 1 { (n - 1) as nat } else { old(self).wcet_of_n_jobs@.len() }),
+//@-
+    {
+        // We need at least three samples to extrapolate, so let's do nothing if we have fewer.
+        if self.wcet_of_n_jobs.len() >= 3 {
+            while self.wcet_of_n_jobs.len() < n.saturating_sub(1)
+//@+
+                invariant
+                    self.wcet_of_n_jobs@.len() >= 3, lin_bounded(self.wcet_of_n_jobs@),
+                    cv(self.wcet_of_n_jobs@, 0) == cv(old(self).wcet_of_n_jobs@, 0),
+                    (n + old(self).wcet_of_n_jobs@.len() + 1) * cv(old(self).wcet_of_n_jobs@, 0) <= u64::MAX,
+                    extends(old(self).wcet_of_n_jobs@, self.wcet_of_n_jobs@),
+                    old(self).wcet_of_n_jobs@.len() >= 3,
+                    self.wcet_of_n_jobs@.len() == old(self).wcet_of_n_jobs@.len() || self.wcet_of_n_jobs@.len() <= n - 1,
+                decreases n - self.wcet_of_n_jobs@.len()
+//@-
+            {
+//@+
+                let ghost w0 = self.wcet_of_n_jobs@;
+                proof {
+                    let c0 = cv(w0, 0);
+                    assert((w0.len() + 1) * c0 <= (n + old(self).wcet_of_n_jobs@.len() + 1) * c0) by { lemma_mul_inequality((w0.len() + 1) as int, (n + old(self).wcet_of_n_jobs@.len() + 1) as int, c0); }
+                }
+//@-
+                self.wcet_of_n_jobs.push(self.extrapolate_next())
+//@+
+                ; proof {
+                    let w1 = self.wcet_of_n_jobs@;
+                    assert(w1.subrange(0, w0.len() as int) =~= w0);
+                    assert(w1.subrange(0, old(self).wcet_of_n_jobs@.len() as int) =~= w0.subrange(0, old(self).wcet_of_n_jobs@.len() as int));
+                    assert forall |m: int| old(self).wcet_of_n_jobs@.len() <= m < w1.len() implies #[trigger] cv(w1, m) == ext_next(w1.subrange(0, m)) by {
+                        if m < w0.len() { assert(w1.subrange(0, m) =~= w0.subrange(0, m)); assert(cv(w1, m) == cv(w0, m)); }
+                    }
+                    assert forall |i: int| 0 <= i < w1.len() implies #[trigger] cv(w1, i) <= (i + 1) * cv(w1, 0) by { if i < w0.len() { assert(cv(w1, i) == cv(w0, i)); } }
+                }
+//@-
+            }
+        }
+    }
+//@end
+}
+
+
+// ------------------------------------------------------------------ from_trace (C14)
+pub open spec fn tc(tr: Seq<Service>, j: int) -> int { tr[j].v() }
+/// total cost of the k consecutive jobs that end with job j
+pub open spec fn run_sum(tr: Seq<Service>, j: int, k: int) -> int
+    decreases k
+{ if k <= 0 { 0 } else { tc(tr, j) + run_sum(tr, j - 1, k - 1) } }
+/// maximum such total among the first m jobs (m >= k >= 1)
+pub open spec fn max_run(tr: Seq<Service>, m: int, k: int) -> int
+    decreases (if m > k { m - k } else { 0 })
+{
+    if m <= k { run_sum(tr, k - 1, k) } else { let r = max_run(tr, m - 1, k); let g = run_sum(tr, m - 1, k); if g > r { g } else { r } }
+}
+pub open spec fn umin(a: int, b: int) -> int { if a <= b { a } else { b } }
+/// C14: every recorded entry is the TRUE maximum cost of i+1 consecutive jobs among the first m jobs
+pub open spec fn cost_exact(c: Seq<Service>, tr: Seq<Service>, m: int, max_n: int) -> bool {
+    &&& c.len() == umin(m, max_n)
+    &&& forall |i: int| 0 <= i < c.len() ==> #[trigger] c[i].v() == max_run(tr, m, i + 1)
+}
+pub open spec fn total(tr: Seq<Service>) -> int { run_sum(tr, tr.len() - 1, tr.len() as int) }
+pub proof fn lemma_run_sum_bounds(tr: Seq<Service>, j: int, k: int)
+    requires 0 <= k <= j + 1 <= tr.len()
+    ensures 0 <= run_sum(tr, j, k) <= run_sum(tr, j, j + 1) <= total(tr)
+    decreases k
+{
+    lemma_run_prefix_le(tr, j, k);
+    lemma_run_full_le_total(tr, j);
+    lemma_run_nonneg(tr, j, k);
+}
+pub proof fn lemma_run_nonneg(tr: Seq<Service>, j: int, k: int)
+    requires 0 <= k <= j + 1 <= tr.len()
+    ensures run_sum(tr, j, k) >= 0
+    decreases k
+{ if k > 0 { lemma_run_nonneg(tr, j - 1, k - 1); } }
+pub proof fn lemma_run_prefix_le(tr: Seq<Service>, j: int, k: int)
+    requires 0 <= k <= j + 1 <= tr.len()
+    ensures run_sum(tr, j, k) <= run_sum(tr, j, j + 1)
+    decreases k
+{
+    if k > 0 { lemma_run_prefix_le(tr, j - 1, k - 1); } else { lemma_run_nonneg(tr, j, j + 1); }
+}
+pub proof fn lemma_run_full_le_total(tr: Seq<Service>, j: int)
+    requires 0 <= j + 1 <= tr.len()
+    ensures run_sum(tr, j, j + 1) <= total(tr)
+    decreases tr.len() - j
+{
+    if j + 1 < tr.len() { lemma_run_full_le_total(tr, j + 1); }
+}
+/// C14: the recorded maximum bounds every run of k consecutive jobs of the trace
+pub proof fn lemma_max_run_ge(tr: Seq<Service>, m: int, k: int, j: int)
+    requires 1 <= k <= j + 1 <= m
+    ensures max_run(tr, m, k) >= run_sum(tr, j, k)
+    decreases m
+{
+    if m > k { if j < m - 1 { lemma_max_run_ge(tr, m - 1, k, j); } }
+}
+
+impl WcetCurve {
+//@item src/wcet/curve.rs :: impl Curve #2 / fn from_trace
+    pub fn from_trace(/*@R15: job_costs: impl Iterator<Item = Service> @*/job_costs: &[Service]/*@.*/, max_n: usize) -> /*+*/(r: /*-*//*@R19: Curve @*/WcetCurve/*@.*//*+*/)
+        requires max_n < 0x1_0000_0000, job_costs@.len() < 0x1_0000_0000, total(job_costs@) <= u64::MAX,
+        // C14: every entry is the exact maximum total cost of i+1 consecutive jobs of the trace
+        ensures cost_exact(r.wcet_of_n_jobs@, job_costs@, job_costs@.len() as int, max_n as int)/*-*/ {
+        let mut cost_of/*+*/: Vec<Service>/*-*/ = Vec::with_capacity(max_n);
+        let mut window: VecDeque<Service> = VecDeque::with_capacity(max_n + 1);
+//@+
+        let ghost tr = job_costs@;
+//@-
+
+        // consider all observed costs in the trace
+        /*@R15: for c in job_costs @*/let mut vf_m: usize = 0;
+        while vf_m < job_costs.len()
+            invariant
+                tr == job_costs@, vf_m <= job_costs.len(), max_n < 0x1_0000_0000, job_costs@.len() < 0x1_0000_0000, total(tr) <= u64::MAX,
+                window@.len() == umin(vf_m as int, max_n as int),
+                forall |x: int| 0 <= x < window@.len() ==> #[trigger] window@[x] == tr[vf_m - window@.len() + x],
+                cost_exact(cost_of@, tr, vf_m as int, max_n as int),
+            decreases job_costs.len() - vf_m
+        /*@.*/{
+//@+
+            let c = job_costs[vf_m];
+//@-
+            // add job cost to sliding window
+            window.push_back(c);
+            // trim sliding window if necessary
+            if window.len() > max_n {
+                window.pop_front();
+            }
+
+            // look at all job costs in the sliding window and keep track of total cost
+            let mut total_cost = Service::none();
+//@+
+            let ghost c0 = cost_of@;
+            proof {
+                assert(window@.len() == umin(vf_m + 1, max_n as int));
+                assert forall |x: int| 0 <= x < window@.len() implies #[trigger] window@[x] == tr[vf_m + 1 - window@.len() + x] by {}
+            }
+//@-
+            /*@R15: for (i, k) in window.iter().rev().enumerate() @*/let mut i: usize = 0;
+            while i < window.len()
+                invariant
+                    tr == job_costs@, vf_m < job_costs.len(), i <= window@.len(), max_n < 0x1_0000_0000, total(tr) <= u64::MAX,
+                    window@.len() == umin(vf_m + 1, max_n as int),
+                    forall |x: int| 0 <= x < window@.len() ==> #[trigger] window@[x] == tr[vf_m + 1 - window@.len() + x],
+                    cost_exact(c0, tr, vf_m as int, max_n as int),
+                    total_cost.v() == run_sum(tr, vf_m as int, i as int),
+                    cost_of@.len() == (if i as int > c0.len() { i as int } else { c0.len() as int }),
+                    forall |x: int| 0 <= x < i ==> #[trigger] cost_of@[x].v() == max_run(tr, vf_m + 1, x + 1),
+                    forall |x: int| i <= x < cost_of@.len() ==> #[trigger] cost_of@[x] == c0[x],
+                decreases window@.len() - i
+            /*@.*/{
+//@+
+                let k = &window[window.len() - 1 - i];
+                proof {
+                    assert(window@[window@.len() - 1 - i] == tr[vf_m - i]);
+                    lemma_run_sum_bounds(tr, vf_m as int, i + 1);
+                    // run_sum(tr, m, i+1) == run_sum(tr, m, i) + tr[m - i]
+                    lemma_run_sum_extend(tr, vf_m as int, i as int);
+                }
+//@-
+                total_cost += *k;
+                if cost_of.len() <= i {
+                    // we have not yet seen (i + 1) costs in a row -> first sample
+                    cost_of.push(total_cost)
+                } else {
+                    // update total cost of (i+1) jobs
+//@+
+                    proof { assert(cost_of@[i as int] == c0[i as int]); assert(c0[i as int].v() == max_run(tr, vf_m as int, i + 1)); }
+//@-
+                    cost_of[i] = cost_of[i].max(total_cost)
+                }
+//@+
+                i += 1;
+//@-
+            }
+//@+
+            vf_m += 1;
+//@-
+        }
+
+        /*@R19: Curve @*/WcetCurve/*@.*/ {
+            wcet_of_n_jobs: cost_of,
+        }
+    }
+//@end
+}
+pub proof fn lemma_run_sum_extend(tr: Seq<Service>, j: int, k: int)
+    requires 0 <= k <= j
+    ensures run_sum(tr, j, k + 1) == run_sum(tr, j, k) + tc(tr, j - k)
+    decreases k
+{
+    if k > 0 {
+        lemma_run_sum_extend(tr, j - 1, k - 1);
+        assert(run_sum(tr, j, k + 1) == tc(tr, j) + run_sum(tr, j - 1, k));
+        assert(run_sum(tr, j, k) == tc(tr, j) + run_sum(tr, j - 1, k - 1));
+    } else {
+        assert(run_sum(tr, j, 1) == tc(tr, j) + run_sum(tr, j - 1, 0));
+        assert(run_sum(tr, j - 1, 0) == 0);
+        assert(run_sum(tr, j, 0) == 0);
+    }
+}
 
 } // verus!
